@@ -6,4 +6,9 @@ TEXT = {
   "level_text": "Exploration: every Unicode code point, every byte and hostile byte pairs exhaustively through the registered filter and the built-in fallback; thousands of random strings (incl. invalid UTF-8, already-escaped text) as 8 Go value shapes in 11 syntactic positions plus the fallback and macro-text routes. Absence of a counterexample outside the enumerated sub-space is not established.",
   "level_note": "Trusted: Go's html.UnescapeString as reference decoder; rapid's generators; for non-string values the pre-image is the engine's own unfiltered print of the value.",
  },
+ "C08": {
+  "technique": "property-based testing (rapid, type-directed tree generator) + exhaustive operator-triple and spacing enumeration; oracle = reference evaluator written from the operator table + metamorphic minimal-vs-fully-parenthesised spelling + spy-call sequence + position equivalence",
+  "level_text": "Exploration: random typed expression trees up to depth 5 (thorough 6) in 11 syntactic positions with random whitespace and redundant parentheses, compared with an independent reference evaluator and with their fully parenthesised spelling, including the order of spy invocations; all typable triples of 12 representative operators in all 5 tree shapes and every operator x whitespace spelling are enumerated exhaustively. Absence of counterexamples beyond the explored trees is not established.",
+  "level_note": "Trusted: the reference model harness/rm.go as the executable reading of the operator table; operand domain restricted to what the statement covers (ints within 2^53, exact division, same-typed equality, strings that do not look numeric); unary operators next to binary ones only in the unambiguous arrangements listed in DESIGN.md C08 W.",
+ },
 }
